@@ -215,6 +215,26 @@ def check(case, ctx):
             raise Violation("fake-raises", f"fake(from_native({v!r})) raised {e!r}")
     if not same(g, v):
         raise Violation("generates-other", f"fake(from_native({v!r})) = {g!r}")
+    if type(v) is list:
+        # the same schema with a length bound that changes nothing: still denotes exactly v
+        n = len(v)
+        for how, refined in (("len(..., n+5)", lambda: S.len(..., n + 5)), ("len(0, n+5)", lambda: S.len(0, n + 5)), ("len(n)", lambda: S.len(n)),
+                             ("len(n, ...)", lambda: S.len(n, ...))):
+            try:
+                S2 = refined()
+            except Exception:  # noqa  (a declaration rule may refuse it: C10's business)
+                continue
+            if validate(S2, copy.deepcopy(v)).has_errors():
+                raise Violation("rejects-own-value", f"from_native({v!r}).{how} rejects the value")
+            for script in (case["rng"], [1.0] * 6, [0.0] * 6):
+                with rng.scripted(script):
+                    try:
+                        g2 = fake(S2)
+                    except Exception as e:  # noqa
+                        raise Violation("fake-raises", f"fake(from_native({v!r}).{how}) raised {e!r}")
+                if not same(g2, v):
+                    raise Violation("generates-other", f"fake(from_native({v!r}).{how}) = {g2!r}")
+        ctx.label("redundant-length-bound")
     ctx.label("top:" + type(v).__name__)
     if case.get("shared"):
         ctx.label("shared-subobject")
